@@ -155,6 +155,46 @@ pub fn check_free_reproducible(b: &Built, rec: &Recorder, c: &mut Counters, envs
     calls
 }
 
+/// The input of the seeded call is itself the RESULT of another API call, recomputed in every hash-key
+/// environment (reverse of the reverse for digraphs, the subgraph on all nodes otherwise): same graph,
+/// same seed, same answer - the derived graph must not carry an order that depends on the environment.
+pub fn check_chain_reproducible(b: &Built, rec: &Recorder, c: &mut Counters, envs: u64) -> u64 {
+    let mut calls = 0;
+    for seed in [0u64, 1] {
+        let mut outcomes: BTreeMap<Outcome, u64> = BTreeMap::new();
+        for hs in 0..envs {
+            let r = on_fresh_thread_scoped(800 + hs, || {
+                let g2 = if b.kind.directed {
+                    b.g.reverse().expect("reverse").reverse().expect("reverse")
+                } else {
+                    let mut all: Vec<N> = b.names.clone();
+                    all.reverse();
+                    b.g.get_subgraph(&all)
+                };
+                let b2 = Built { kind: b.kind, n: b.n, names: b.names.clone(), edges: b.edges.clone(), node_order: b.node_order.clone(), g: g2, case: b.case.clone(), weighted: b.weighted };
+                exec_louvain(&b2, b.weighted, None, None, Some(seed), None, &[]).outcome
+            });
+            if let Ok(o) = r {
+                outcomes.entry(o).or_insert(hs);
+            }
+            calls += 1;
+        }
+        c.addn("derived_graph_executions", envs);
+        if outcomes.len() > 1 {
+            let mut it = outcomes.iter();
+            let (o1, h1) = it.next().unwrap();
+            let (o2, h2) = it.next().unwrap();
+            let how = if b.kind.directed { "g.reverse().reverse()" } else { "g.get_subgraph(all nodes)" };
+            rec.record(
+                Violation::new("seeded_louvain_reproducible_on_derived_graph", "louvain_partitions", format!("{}|chain:seed={seed}", b.case), format!("{}\nlouvain_partitions({how}, weighted={}, None, None, Some({seed})) gives {} different results over {envs} hash-key environments, e.g.\n  environment {h1} -> {o1:?}\n  environment {h2} -> {o2:?}", b.describe(), b.weighted, outcomes.len()))
+                    .with_tags(b.tags())
+                    .with_snippet(b.snippet(&format!("    // call louvain_partitions(&{how}, {}, None, None, Some({seed})) repeatedly: the result differs between calls\n", b.weighted))),
+            );
+        }
+    }
+    calls
+}
+
 fn canon_levels(r: &Result<Vec<Vec<std::collections::HashSet<i32>>>, graphrs::Error>) -> String {
     match r {
         Err(e) => format!("Err({:?})", e.kind),
@@ -369,6 +409,8 @@ pub fn c17_families(tier: &str) -> Vec<Family> {
         f.min_edges = 1;
         v.push(f);
     };
+    add(fam_primed(US, 3, "w12", &ORD_ONE));
+    add(fam_primed(DS, 3, "u", &ORD_ONE));
     if tier == "quick" {
         add(fam(US, 3, "u", &ORD_ONE));
         add(fam(US, 4, "u", &ORD_ONE));
@@ -402,7 +444,8 @@ pub fn run(tier: &str, rec: &Recorder) -> RunOutput {
         let _ = on_fresh_thread_scoped(seed, || {
             let b = build_named(i, d, r);
             let mut c = Counters::default();
-            let k = check_reproducible(&b, rec, &mut c, &p);
+            let mut k = check_reproducible(&b, rec, &mut c, &p);
+            k += check_chain_reproducible(&b, rec, &mut c, if tier == "quick" { 5 } else { 12 });
             c.addn("named_calls", k);
             c.inc("named_graphs");
             named_tot.lock().unwrap().merge(&c);
@@ -422,6 +465,10 @@ pub fn run(tier: &str, rec: &Recorder) -> RunOutput {
         for mut f in fams {
             f.min_edges = 2;
             for_each_graph(&f, seed, deadline, &stats, |b, c| check_free_reproducible(b, rec, c, envs));
+        }
+        for mut f in [fam(US, 4, "u", &ORD_ONE), fam(DS, 3, "u", &ORD_ONE), fam(US, 3, "w12", &ORD_ONE)] {
+            f.min_edges = 2;
+            for_each_graph(&f, seed, deadline, &stats, |b, c| check_chain_reproducible(b, rec, c, envs.min(4)));
         }
     }
     if tier != "quick" {
@@ -470,7 +517,11 @@ pub fn replay(case: &str, rec: &Recorder) -> bool {
             let b = build_named(i, d, r);
             println!("{}", b.describe());
             let mut c = Counters::default();
-            check_reproducible(&b, rec, &mut c, &p);
+            if case.contains("|chain:") {
+                check_chain_reproducible(&b, rec, &mut c, 12);
+            } else {
+                check_reproducible(&b, rec, &mut c, &p);
+            }
         });
         return rec.has_any();
     }
@@ -490,6 +541,14 @@ pub fn replay(case: &str, rec: &Recorder) -> bool {
             println!("{}", b.describe());
             let mut c = Counters::default();
             let pf = Params { bound: 2, budget: 20_000, seeds: vec![0, 1, 2], float_sites: f.walpha == "wf" };
+            if case.contains("|chain:") {
+                check_chain_reproducible(&b, rec, &mut c, 12);
+                return;
+            }
+            if case.contains("|free:") {
+                check_free_reproducible(&b, rec, &mut c, 12);
+                return;
+            }
             check_reproducible(&b, rec, &mut c, if f.walpha == "wf" { &pf } else { &p });
         });
     }
